@@ -82,6 +82,72 @@ def pFont : P Font := do
   let chains ← counted pChain
   pure ⟨n, feat, chains⟩
 
+
+/-! ### the same recipe, read into the declarative structures of Spec/Aat -/
+
+namespace SpecP
+open RbModel.Spec.Aat
+
+def pTable : P StateTable := do
+  let nClasses ← nat
+  let cl ← pLookup
+  let st ← counted nat
+  let es ← counted (do let a ← nat; let b ← nat; let c ← nat; let d ← nat; pure (⟨a, b, c, d⟩ : RbModel.Spec.Aat.Entry))
+  let sa := st.toArray
+  let ea := es.toArray
+  pure { nClasses := nClasses, classOf := cl,
+         entry := fun state cls => match sa[state * nClasses + cls]? with
+           | some e => ea[e]?
+           | none => none }
+
+def pSub : P Sub := do
+  let k ← nat
+  match k with
+  | 0 => do let t ← pTable; pure (.rearr t)
+  | 1 => do
+    let t ← pTable
+    let lks ← counted pLookup
+    pure (.contextual t (arrView lks.toArray))
+  | 2 => do
+    let t ← pTable
+    let acts ← counted nat
+    let comps ← counted nat
+    let ligs ← counted nat
+    pure (.ligature t (arrView acts.toArray) (arrView comps.toArray) (arrView ligs.toArray))
+  | 4 => do let l ← pLookup; pure (.noncontextual l)
+  | 5 => do
+    let t ← pTable
+    let gl ← counted nat
+    pure (.insertion t (arrView gl.toArray))
+  | _ => failure
+
+def pSubtable : P RbModel.Spec.Aat.Subtable := do
+  let cov ← nat; let ff ← nat; let k ← pSub
+  pure ⟨Coverage.ofByte cov, ff, k⟩
+
+/-- (default flags, feature entries, subtables) -/
+def pChain : P (Nat × List (Nat × Nat × Nat × Nat) × List RbModel.Spec.Aat.Subtable) := do
+  let d ← nat
+  let fs ← counted (do let a ← nat; let b ← nat; let c ← nat; let d ← nat; pure (a, b, c, d))
+  let sts ← counted pSubtable
+  pure (d, fs, sts)
+
+def pFont : P (List (Nat × List (Nat × Nat × Nat × Nat) × List RbModel.Spec.Aat.Subtable)) := do
+  let _ ← nat
+  let hasFeat ← nat
+  if hasFeat == 1 then
+    let _ ← counted (do let t ← nat; let k ← nat; let x ← nat; pure (t, k, x))
+    pure ()
+  counted pChain
+
+/-- no user features: every chain runs with its default flags -/
+def run (chains : List (Nat × List (Nat × Nat × Nat × Nat) × List RbModel.Spec.Aat.Subtable))
+    (rtl vertical : Bool) (xs : Array Nat) (ops : Int) : Option (Array Nat × Int) :=
+  chains.foldlM (fun (p : Array Nat × Int) ch =>
+    runChain ch.2.2 (chainFlagsSpec (fun _ _ => false) ch.1 ch.2.1) rtl vertical 200000 p.1 p.2) (xs, ops)
+
+end SpecP
+
 /-! ### inputs -/
 
 def hexVal (c : Char) : Option Nat :=
@@ -176,6 +242,23 @@ def handle (ts : List String) : Option String :=
       match r with
       | .ok s => pure s
       | .error p => pure (panicStr p)
+    | _ => none
+  | "spec" :: _hex :: "R" :: rest => do
+    -- the reference interpreter of Spec/Aat (no user features): glyph ids only, `undef` outside its domain
+    let (rec, inp) := splitAtI rest
+    let ns ← nats rec
+    let (chains, rest') ← SpecP.pFont.run ns
+    if !rest'.isEmpty then none
+    match inp with
+    | [dir, _level, maxOps, _maxLen, _feats, gs] =>
+      let gs ← pGlyphs gs
+      let n := gs.length
+      let ops : Int ← if maxOps == "-" then
+          some ((max (n * RbModel.Gen.Morx.MAX_OPS_FACTOR) RbModel.Gen.Morx.MAX_OPS_MIN : Nat) : Int)
+        else pInt maxOps
+      match SpecP.run chains (dir == "r" || dir == "b") (dir == "t" || dir == "b") (gs.map (·.gid)).toArray ops with
+      | some (xs, _) => pure ("ok " ++ (if xs.isEmpty then "-" else ",".intercalate (xs.toList.map toString)))
+      | none => pure "undef"
     | _ => none
   | "compile" :: _hex :: "R" :: rest => do
     let (rec, inp) := splitAtI rest
